@@ -67,6 +67,36 @@ let dh_real_memo pv pub =
   | Some r -> r
   | None -> let r = dh_real pv pub in Hashtbl.replace dh_memo key r; r
 
+(* ---- configuration layer: the State comes from the model of InitState (Model/ServerInit.v) on the RawConfig
+   tokens  cfg=1 rpk=<hex> radmin=<hex> rbypass=<hex,..> (an empty entry is written "e") rbook=<name:s1.s2...;..> (hex strings)
+           rredir=<hex> rdb=0|1 rka=<[-]hex> rcnc=0|1 rres=<host:0|1,..> ares=<network:address:0|1,..> db=<records of the file> *)
+let raw_of kv =
+  let strs s = lst s '.' (fun x -> if x = "e" then [] else bytes_of_hex x) in
+  { rc_book = lst (get "rbook" kv) ';' (fun e -> match split_on ':' e with
+      | [n; p] -> ((if n = "e" then [] else bytes_of_hex n), strs p)
+      | [n] -> ((if n = "e" then [] else bytes_of_hex n), [])
+      | _ -> failwith "bad rbook");
+    rc_bypass = lst (get "rbypass" kv) ',' (fun x -> if x = "e" then [] else bytes_of_hex x);
+    rc_redir = bytes_of_hex (get "rredir" kv);
+    rc_privateKey = bytes_of_hex (get "rpk" kv);
+    rc_admin = bytes_of_hex (get "radmin" kv);
+    rc_dbPath = (if get "rdb" kv = "1" then [N0] else []);
+    rc_keepAlive = z_of_hex (get "rka" kv);
+    rc_cnc = (get "rcnc" kv = "1") }
+let resolve_ip_table kv =
+  let tbl = lst (get "rres" kv) ',' (fun e -> match split_on ':' e with
+    | [h; r] -> ((if h = "-" then "" else h), r = "1") | _ -> failwith "bad rres") in
+  fun (h : n list) -> let k = hex_of_bytes h in
+    (try List.assoc (if k = "-" then "" else k) tbl with Not_found -> raise (Miss ("resolve host " ^ k)))
+let resolve_addr_table kv =
+  let tbl = lst (get "ares" kv) ',' (fun e -> match split_on ':' e with
+    | [nw; a; r] -> ((nw, a), r = "1") | _ -> failwith "bad ares") in
+  fun (nw : n list) (a : n list) ->
+    (try List.assoc (hex_of_bytes nw, hex_of_bytes a) tbl with Not_found -> raise (Miss "resolve addr"))
+let show_ierr = function IECnc -> "cnc" | IEDb -> "db" | IERedir -> "redir" | IEBook -> "book" | IEKey -> "key"
+let show_z z = match z with Z0 -> "0" | Zpos p -> string_of_int (int_of_n (Npos p)) | Zneg p -> "-" ^ string_of_int (int_of_n (Npos p))
+let join l = if l = [] then "-" else String.concat "," l
+
 let show_perr = function
   | EMagic | ENotHello | EHelloLen | EMalformedHello | EMalformedExts -> "hello"
   | EMalformedKS -> "ks-malformed" | EKSLen -> "ks-len" | ENoX25519 -> "no-x25519"
@@ -91,8 +121,22 @@ let () = iter_lines (fun line ->
   | id :: _ ->
     let kv = kvs line in
     (try
-      let st = parse_state kv in
       let now = z_of_hex (get "now" kv) in
+      let st, initdesc =
+        if get "cfg" kv <> "1" then parse_state kv, ""
+        else begin
+          let dbrec = (parse_state kv).st_db in
+          match init_state (resolve_ip_table kv) (resolve_addr_table kv) (fun _ -> Some dbrec) (raw_of kv) with
+          | IErr e -> raise (Failure ("INIT " ^ show_ierr e))
+          | IOk io ->
+            let st = io.io_state in
+            st, Printf.sprintf " init=ok adm=%s byp=%s ibook=%s mgr=%s ka=%s ipv=%s rhost=%s rport=%s"
+              (hex_of_bytes st.st_adminUID)
+              (join (List.sort_uniq compare (List.map hex_of_bytes st.st_bypass)))
+              (join (List.sort_uniq compare (List.map hex_of_bytes st.st_proxyBook)))
+              (if io.io_local_manager then "local" else "void") (show_z io.io_keepAlive)
+              (hex_of_bytes st.st_staticPv) (hex_of_bytes io.io_redirHost) (hex_of_bytes io.io_redirPort)
+        end in
       let pkt = bytes_of_hex (get "pkt" kv) in
       let dh = if get "x25519" kv = "1" then dh_real_memo else dh_table kv in
       let hid = hid_table kv in
@@ -105,6 +149,8 @@ let () = iter_lines (fun line ->
       let disp = (match dispatch_conn dh gcm hid pkt Stall st now with
         | OClose -> "close" | ODrop -> "drop" | OCrash -> "crash" | OWeb (_, _) -> "web"
         | OSession AdminSession -> "admin" | OSession _ -> "proxy") in
-      Printf.printf "%s auth=%s dec=%s disp=%s lomis=%d\n" id auth dec disp (low_order_mismatches kv)
+      Printf.printf "%s auth=%s dec=%s disp=%s lomis=%d%s\n" id auth dec disp (low_order_mismatches kv) initdesc
     with Miss m -> Printf.printf "%s MISS %s\n" id m
+       | Failure m when String.length m > 5 && String.sub m 0 5 = "INIT " ->
+         Printf.printf "%s init=err:%s\n" id (String.sub m 5 (String.length m - 5))
        | Failure m -> Printf.printf "%s FAIL %s\n" id m))
